@@ -18,7 +18,24 @@ static int one(double R0, double Rmax, int nr_exp, int nt_exp, double refr, int 
 {
     try {
         PolarGrid g(R0, Rmax, nr_exp, nt_exp, refr, aniso, div);
-        printf("OK nr=%d nt=%d nc=%d radii=%s angles=%s\n", g.nr(), g.ntheta(), g.numberSmootherCircles(), hexvec(g.radii()).c_str(), hexvec(g.angles()).c_str());
+        // implementation oracle (no model involved): one more halving contains the grid of one halving less as its every-second-node
+        // subgrid, in r AND in theta, and the new nodes are the midpoints — "nested", as the property states it
+        std::string nested = "-";
+        if (div >= 1) {
+            try {
+                PolarGrid c(R0, Rmax, nr_exp, nt_exp, refr, aniso, div - 1);
+                bool ok = g.nr() == 2 * c.nr() - 1 && g.ntheta() == 2 * c.ntheta();
+                if (ok) {
+                    for (int i = 0; i < c.nr(); i++) if (g.radius(2 * i) != c.radius(i)) ok = false;
+                    for (int j = 0; j <= c.ntheta(); j++) if (g.angles()[2 * j] != c.angles()[j]) ok = false;
+                    for (int i = 1; i < g.nr(); i += 2) if (std::abs(g.radius(i) - 0.5 * (g.radius(i - 1) + g.radius(i + 1))) > 1e-14 * g.radius(i + 1)) ok = false;
+                    for (int j = 1; j < g.ntheta(); j += 2) if (std::abs(g.angles()[j] - 0.5 * (g.angles()[j - 1] + g.angles()[j + 1])) > 1e-14 * 7.0) ok = false;
+                }
+                nested = ok ? "1" : "0";
+            }
+            catch (const std::exception&) { nested = "-"; }
+        }
+        printf("OK nr=%d nt=%d nc=%d nested_in_one_halving_less=%s radii=%s angles=%s\n", g.nr(), g.ntheta(), g.numberSmootherCircles(), nested.c_str(), hexvec(g.radii()).c_str(), hexvec(g.angles()).c_str());
     }
     catch (const std::exception& e) {
         printf("THROW %s\n", e.what());
